@@ -240,7 +240,11 @@ std::string handleReadOp(bool emitdup, const std::string& ids, const std::string
         ProcessExecutor ex(files, fileSettings, settings, supprs, logger, nullptr, CppCheck::ExecuteCmdFn());
         unsigned int result = 0;
         int guard = 0;
-        while (ex.handleRead(in[0], result, "f") && ++guard < 100000) {}
+        try {
+            while (ex.handleRead(in[0], result, "f") && ++guard < 100000) {}
+        } catch (...) {
+            _exit(3);   // an exception handleRead does not catch (the op loop of this harness must not see it)
+        }
         std::string tail = "end result=" + std::to_string(result);
         size_t k = 0;
         for (const auto& s : supprs.nomsg.getSuppressions()) {
@@ -265,6 +269,7 @@ std::string handleReadOp(bool emitdup, const std::string& ids, const std::string
     }
     std::string status;
     if (WIFEXITED(st) && WEXITSTATUS(st) == 0) status = "ok";
+    else if (WIFEXITED(st) && WEXITSTATUS(st) == 3) status = "abort";
     else if (WIFEXITED(st)) status = "fatal";
     else if (WIFSIGNALED(st) && WTERMSIG(st) == SIGABRT) status = "abort";
     else status = "signal" + std::to_string(WIFSIGNALED(st) ? WTERMSIG(st) : -1);
